@@ -1,0 +1,75 @@
+//go:build verif
+
+package client
+
+import (
+	"context"
+	"net"
+	"sync/atomic"
+
+	"go.miragespace.co/specter/spec/protocol"
+)
+
+// VerifHookFn receives the name of an instrumentation point. It may block.
+type VerifHookFn func(point string)
+
+var verifHook atomic.Pointer[VerifHookFn]
+
+// VerifSetHook installs (or removes, with nil) the instrumentation callback.
+func VerifSetHook(fn VerifHookFn) {
+	if fn == nil {
+		verifHook.Store(nil)
+		return
+	}
+	verifHook.Store(&fn)
+}
+
+func verifPoint(point string) {
+	if fn := verifHook.Load(); fn != nil {
+		(*fn)(point)
+	}
+}
+
+// VerifHandleIncoming feeds one gateway connection to the client, as the
+// stream router does after it received the link frame.
+func (c *Client) VerifHandleIncoming(ctx context.Context, link *protocol.Link, conn net.Conn) error {
+	return c.handleIncomingDelegation(ctx, link, conn)
+}
+
+// VerifSetConnected replaces the set of connected gateway nodes.
+func (c *Client) VerifSetConnected(nodes []*protocol.Node) {
+	c.connections.Range(func(key string, _ *protocol.Node) bool {
+		c.connections.Delete(key)
+		return true
+	})
+	for _, n := range nodes {
+		c.connections.Store(n.GetAddress(), n)
+	}
+}
+
+// VerifProxyHosts lists the hostnames that currently have a cached HTTP proxy.
+func (c *Client) VerifProxyHosts() []string {
+	hosts := make([]string, 0)
+	c.proxies.Range(func(key string, _ *httpProxy) bool {
+		hosts = append(hosts, key)
+		return true
+	})
+	return hosts
+}
+
+// VerifRouterTargets returns hostname -> target URL as currently routed.
+func (c *Client) VerifRouterTargets() map[string]string {
+	m := make(map[string]string)
+	c.Configuration.router.Range(func(key string, r route) bool {
+		if r.parsed != nil {
+			m[key] = r.parsed.String()
+		} else {
+			m[key] = ""
+		}
+		return true
+	})
+	return m
+}
+
+// VerifWriteFile saves the configuration the way every mutation of it does.
+func (c *Config) VerifWriteFile() error { return c.writeFile() }
